@@ -68,6 +68,20 @@ Proof.
   constructor.
 Qed.
 
+Lemma nodup_fst_functional : forall (l : list (string * N)) id a a',
+  NoDup (map fst l) -> In (id, a) l -> In (id, a') l -> a' = a.
+Proof.
+  induction l as [|[i x] t IH]; intros id a a' Hnd H1 H2; [contradiction|].
+  cbn [map fst] in Hnd. inversion Hnd as [|? ? Hni Hnd']; subst.
+  assert (Hid : forall y, In (id, y) t -> In id (map fst t)).
+  { intros y Hy. change id with (fst (id, y)). apply in_map, Hy. }
+  destruct H1 as [H1|H1]; destruct H2 as [H2|H2].
+  - congruence.
+  - injection H1 as Hi _. subst i. exfalso. apply Hni, (Hid _ H2).
+  - injection H2 as Hi _. subst i. exfalso. apply Hni, (Hid _ H1).
+  - apply (IH id a a' Hnd' H1 H2).
+Qed.
+
 (** The clause for MSRs: every supported MSR whose read succeeds is in the result, once, with
     the value read from ITS MSR number — whatever happens to the other reads; one whose read
     fails is not in the result but in the error. *)
@@ -80,15 +94,7 @@ Theorem read_msrs_register : forall rd id a, In (id, a) msr_layout ->
 Proof.
   intros rd id a Hin.
   assert (Hfun : forall a', In (id, a') msr_layout -> a' = a).
-  { intros a' H'. pose proof msr_ids_nodup as Hnd. revert Hin H'. generalize msr_layout as l. intros l.
-    induction l as [|[i x] t IH]; intros H1 H2; [contradiction|].
-    cbn [map fst] in Hnd. inversion Hnd as [|? ? Hni Hnd']; subst.
-    assert (Hid : forall y, In (id, y) t -> In id (map fst t)) by (intros y Hy; change id with (fst (id, y)); apply in_map, Hy).
-    destruct H1 as [H1|H1]; destruct H2 as [H2|H2].
-    - congruence.
-    - injection H1 as -> ->. exfalso. apply Hni, (Hid _ H2).
-    - injection H2 as -> ->. exfalso. apply Hni, (Hid _ H1).
-    - apply IH; assumption. }
+  { intros a' H'. exact (nodup_fst_functional msr_layout id a a' msr_ids_nodup Hin H'). }
   unfold read_msrs. destruct (rd a) as [v|] eqn:E.
   - split; [apply read_msrs_in; exists a; split; assumption|]. split.
     + intros w Hw. apply read_msrs_in in Hw. destruct Hw as (a' & H1 & H2).
@@ -105,11 +111,11 @@ Qed.
 Theorem read_msrs_error_nil : forall rd,
   snd (read_msrs rd) = [] <-> forall id a, In (id, a) msr_layout -> rd a <> None.
 Proof.
-  intros rd. split.
-  - intros H id a Hin E. assert (Hi : In id (snd (read_msrs rd))) by (apply read_msrs_errors; exists a; split; assumption).
+  intros rd. unfold read_msrs. split.
+  - intros H id a Hin E. assert (Hi : In id (snd (read_msrs_from msr_layout rd))) by (apply read_msrs_errors; exists a; split; assumption).
     rewrite H in Hi. contradiction.
-  - intros H. destruct (snd (read_msrs rd)) as [|id t] eqn:E; [reflexivity|].
-    assert (Hi : In id (snd (read_msrs rd))) by (rewrite E; left; reflexivity).
+  - intros H. destruct (snd (read_msrs_from msr_layout rd)) as [|id t] eqn:E; [reflexivity|].
+    assert (Hi : In id (snd (read_msrs_from msr_layout rd))) by (rewrite E; left; reflexivity).
     apply read_msrs_errors in Hi. destruct Hi as (a & H1 & H2). exfalso. exact (H id a H1 H2).
 Qed.
 
@@ -125,28 +131,28 @@ Theorem find_reg_first : forall regs id v,
   exists pre post, regs = pre ++ (id, v) :: post /\ ~ In id (map fst pre).
 Proof.
   induction regs as [|[k x] t IH]; intros id v; cbn [find_reg].
-  - split; [discriminate|]. intros (pre & post & H & _). destruct pre; discriminate.
+  - split; [discriminate|]. intros (pre & post & H & _). destruct pre; cbn [app] in H; discriminate H.
   - destruct (String.eqb_spec k id) as [->|Hne].
     + split.
       * intros H. injection H as ->. exists [], t. split; [reflexivity|intros []].
-      * intros (pre & post & H & Hni). destruct pre as [|[k' x'] pre].
-        -- injection H as -> _. reflexivity.
-        -- injection H as -> _ _. exfalso. apply Hni. left. reflexivity.
+      * intros (pre & post & H & Hni). destruct pre as [|[k' x'] pre]; cbn [app] in H.
+        -- injection H as Hx _. subst x. reflexivity.
+        -- injection H as Hk _ _. subst k'. exfalso. apply Hni. left. reflexivity.
     + rewrite IH. split.
       * intros (pre & post & -> & Hni). exists ((k, x) :: pre), post. split; [reflexivity|].
         intros [H|H]; [apply Hne, H|apply Hni, H].
-      * intros (pre & post & H & Hni). destruct pre as [|[k' x'] pre].
-        -- injection H as -> _. congruence.
-        -- injection H as -> -> ->. exists pre, post. split; [reflexivity|].
+      * intros (pre & post & H & Hni). destruct pre as [|[k' x'] pre]; cbn [app] in H.
+        -- injection H as Hk _ _. exfalso. exact (Hne Hk).
+        -- injection H as _ _ Ht. exists pre, post. split; [exact Ht|].
            intros Hin. apply Hni. right. exact Hin.
 Qed.
 
 Theorem find_reg_none : forall regs id, find_reg id regs = None <-> ~ In id (map fst regs).
 Proof.
   induction regs as [|[k x] t IH]; intros id; cbn [find_reg map fst In].
-  - split; [intros _ []|reflexivity].
+  - split; [intros _ []|intros _; reflexivity].
   - destruct (String.eqb_spec k id) as [->|Hne].
-    + split; [discriminate|]. intros H. exfalso. apply H. left. reflexivity.
+    + split; [intros H; discriminate H|]. intros H. exfalso. apply H. left. reflexivity.
     + rewrite IH. split; [intros H [H'|H']; [apply Hne, H'|apply H, H']|intros H H'; apply H; right; exact H'].
 Qed.
 
@@ -161,9 +167,9 @@ Proof.
     exfalso. apply Hni. change id with (fst (id, v)). apply in_map, Hin.
 Qed.
 
-Lemma read_txt_ids_nodup img : NoDup (map fst (fst (read_txt img))).
+Lemma read_txt_ids_nodup img : NoDup (map fst (fst (read_regs txt_layout img))).
 Proof.
-  unfold read_txt. rewrite read_regs_ids. pose proof txt_ids_nodup as H. revert H.
+  rewrite read_regs_ids. pose proof txt_ids_nodup as H. revert H.
   generalize txt_layout as l. induction l as [|e t IH]; intros H; [constructor|].
   cbn [ids map] in H. inversion H as [|? ? Hni Hnd]; subst. cbn [filter].
   destruct (fits img e); [|apply IH, Hnd]. cbn [ids map]. constructor; [|apply IH, Hnd].
@@ -177,12 +183,12 @@ Theorem find_in_read_txt : forall img id off n, In (id, off, n) txt_layout ->
   find_reg id (fst (read_txt img)) =
   if Nat.leb (off + n) (length img) then Some (le_at img off n) else None.
 Proof.
-  intros img id off n Hin. destruct (Nat.leb_spec (off + n) (length img)) as [Hf|Hf].
+  intros img id off n Hin. unfold read_txt. destruct (Nat.leb_spec (off + n) (length img)) as [Hf|Hf].
   - apply find_reg_unique; [apply read_txt_ids_nodup|].
     apply (read_regs_fitting txt_layout img id off n txt_ids_nodup Hin Hf).
   - apply find_reg_none. intros H. apply in_map_iff in H. destruct H as ([i v] & Hi & Hv).
-    cbn [fst] in Hi. subst i. destruct (read_regs_sound _ _ _ _ Hv) as (o & m & Hin' & Hfit & _).
-    destruct (nodup_ids_functional _ _ _ _ _ _ txt_ids_nodup Hin Hin') as [<- <-]. lia.
+    cbn [fst] in Hi. subst i. destruct (read_regs_sound txt_layout img id v Hv) as (o & m & Hin' & Hfit & _).
+    destruct (nodup_ids_functional txt_layout id off n o m txt_ids_nodup Hin Hin') as [Ho Hm]. lia.
 Qed.
 
 (** * 6. The sparse evaluation of the [CTools] cases is the model *)
